@@ -374,3 +374,21 @@ Print Assumptions c05_rto_exit_ok2_every_trace.
 Print Assumptions c05_rto_exit_nonvacuous.
 Print Assumptions c05_monitor_core_ok_every_step_partial.
 Print Assumptions c05_monitor_core_ok_every_trace_partial.
+
+(* ---- (d) slow start, PARTIAL: the assumption about the abstract congestion controller (cc_ss_ok: an
+   invariant that bounds the window by two segments plus the acknowledged bytes plus one byte per ACK, kept by
+   set_mss / set_remote_window / on_ack) and what it gives for every sequence of those calls; the
+   connection-level clause c05_slow_start_ok is not proved (Conn/C05_SlowStart.v says what is missing) ---- *)
+From Utp Require Import Conn.C05_SlowStart.
+
+Theorem c05_slow_start_window_bound_partial : forall (CC : Type) (cci : cc_iface CC) (mk : Z -> Z -> CC),
+  cc_ss_ok cci mk ->
+  forall now m ops c, 1 <= m -> ss_ops_ok ops -> ss_run cci (mk now m) ops = Some c ->
+  cc_window cci c <= 2 * ss_mss_hi m ops + ss_bytes ops + ss_acks ops.
+Proof. exact @ss_window_bound. Qed.
+
+Theorem c05_slow_start_hypothesis_satisfiable : cc_ss_ok ideal_ss (fun _ m => (m, 0)).
+Proof. exact ideal_ss_ok. Qed.
+
+Print Assumptions c05_slow_start_window_bound_partial.
+Print Assumptions c05_slow_start_hypothesis_satisfiable.
